@@ -393,10 +393,17 @@ func (m *MemoryBackend) Publish(client *Client, msg *packet.Message, ack Ack) er
 					return ErrQueueFull
 				}
 			} else if sess.activeClient != nil {
-				// wait for room since client is online
+				// add message if there is room, otherwise wait for room since
+				// client is online. the queue is tried first as a closing
+				// client must not cause a message to be dropped that fits
+				// into the stored queue
 				select {
 				case queue(sess) <- msg:
-				case <-sess.activeClient.Closing():
+				default:
+					select {
+					case queue(sess) <- msg:
+					case <-sess.activeClient.Closing():
+					}
 				}
 			} else {
 				// ignore message if offline queue is full
